@@ -33,7 +33,7 @@ BOUNDS = {
              "are read has its round count in [0,6]; experiment repetitions in [1,3] where the getters loop over them; both heralded settings; "
              "identifier sets {2 data,1 ancilla}, {0 data,2 ancilla}, {1 data, 0 ancilla}; estimate clause: rounds concrete from {0,1,2,5}, "
              "repetitions symbolic in [1,6]; GeneralCalibrationIndexKernel: offset in [0,2], repetitions in [1,3], all 4 flag settings",
-    'thorough': "rounds lists of length 1..5, focus round count in [0,10], repetitions in [1,4]; estimate: rounds from {0,1,2,3,5,8}, lists of length <= 3, repetitions in [1,12]",
+    'thorough': "rounds lists of length 1..6, focus round count in [0,16], repetitions in [1,5]; estimate: rounds from {0,1,2,3,5,8}, lists of length <= 3, repetitions in [1,12]",
 }
 OUTSIDE = ["int(dataset_size / cycle) is float division: the claim is for dataset sizes < 2**53", "round lists longer than the bound",
            "negative round counts (the constructor only warns)", "RepetitionExperimentKernel.contains (raises NotImplemented by design)"]
@@ -51,7 +51,7 @@ IDSETS = {
 
 
 def jobs(tier, seed):
-    kmax, rmax, repmax = (3, 6, 3) if tier == 'quick' else (5, 10, 4)
+    kmax, rmax, repmax = (3, 6, 3) if tier == 'quick' else (6, 16, 5)
     out = []
     for k in range(1, kmax + 1):
         for h in (False, True):
